@@ -1,43 +1,55 @@
 #!/usr/bin/env python3
 """Confirm seeded changes and run the checks against them.
 
-usage: seedtest.py import <src_dir> <seed_id>    # copy patch/demo/meta from a sub-agent dir into seeded/<id>
-       seedtest.py confirm <seed_id>             # apply to /repo, run suite + demo, undo; demo on clean tree
-       seedtest.py detect <seed_id> [props...]   # apply, run ./check for the property (quick), undo; record result
-All modifications of /repo are undone with `git -C /repo checkout -- .` straight afterwards.
+usage: seedtest.py import <src_dir> <seed_id>     # copy patch/demo/meta from a sub-agent dir into seeded/<id>
+       seedtest.py confirm <seed_id>              # suite + demo with the change, demo without
+       seedtest.py detect <seed_id> [props...]    # run ./check for the property (quick) against the change
+       seedtest.py all [--jobs N] [ids...]        # confirm + detect (every) seeded change, rewrite DETECTION.md
+       seedtest.py table                          # rewrite DETECTION.md from the recorded results
+
+Every change is applied to a scratch git worktree of /repo under a temporary directory (removed straight
+afterwards); /repo itself is never modified, and the checks are pointed at the worktree with PYTTB_REPO while
+their evidence / replays go to a scratch directory (VERIF_OUT).
 """
 import json
 import os
 import shutil
 import subprocess
 import sys
+import tempfile
 import time
+from concurrent.futures import ThreadPoolExecutor
 
 HERE = os.path.dirname(os.path.dirname(os.path.abspath(__file__)))
 SEEDED = os.path.join(HERE, "seeded")
 REPO = "/repo"
 
 
-def sh(cmd, cwd=None, timeout=3600):
-    p = subprocess.run(cmd, shell=True, cwd=cwd, capture_output=True, text=True, timeout=timeout)
+def sh(cmd, cwd=None, timeout=3600, env=None):
+    p = subprocess.run(cmd, shell=True, cwd=cwd, capture_output=True, text=True, timeout=timeout, env=env)
     return p.returncode, p.stdout + p.stderr
 
 
-def clean():
-    rc, out = sh("git -C /repo status --porcelain --untracked-files=no")
-    return out.strip() == ""
+class Worktree:
+    def __init__(self, sid=None):
+        self.sid = sid
 
+    def __enter__(self):
+        self.dir = tempfile.mkdtemp(prefix=f"seedwt-{self.sid or 'clean'}-")
+        os.rmdir(self.dir)
+        rc, out = sh(f"git -C {REPO} worktree add --detach -q {self.dir} HEAD")
+        assert rc == 0, out
+        self.applied = True
+        if self.sid:
+            sh(f"git -C {self.dir} apply {SEEDED}/{self.sid}/patch.diff 2>&1 || git -C {self.dir} apply --3way {SEEDED}/{self.sid}/patch.diff")
+            rc2, out2 = sh(f"git -C {self.dir} diff HEAD --stat")
+            self.applied = out2.strip() != ""
+        return self
 
-def apply(sid):
-    assert clean(), "repo not clean"
-    rc, out = sh(f"git -C /repo apply {SEEDED}/{sid}/patch.diff 2>&1 || (git -C /repo apply --3way {SEEDED}/{sid}/patch.diff; git -C /repo reset -q)")
-    rc2, out2 = sh("git -C /repo diff --stat")
-    return out2.strip() != "", out + out2
-
-
-def undo():
-    sh("git -C /repo reset -q ; git -C /repo checkout HEAD -- .")
-    assert clean()
+    def __exit__(self, *exc):
+        sh(f"git -C {REPO} worktree remove --force {self.dir}")
+        shutil.rmtree(self.dir, ignore_errors=True)
+        sh(f"git -C {REPO} worktree prune")
 
 
 def load_meta(sid):
@@ -59,69 +71,95 @@ def cmd_import(src, sid):
     save_meta(sid, m)
 
 
-def cmd_confirm(sid):
+def cmd_confirm(sid, wt=None):
     m = load_meta(sid)
-    ok, out = apply(sid)
-    res = {"applies": ok}
-    try:
-        if ok:
-            rc, out = sh("/venv/bin/python -m pytest -q -p no:cacheprovider 2>&1 | tail -1", cwd=REPO)
+    res = {}
+
+    def run_in(w):
+        res["applies"] = w.applied
+        if w.applied:
+            rc, out = sh("/venv/bin/python -m pytest -q -p no:cacheprovider 2>&1 | tail -1", cwd=w.dir)
             res["suite_with_change"] = out.strip()
-            rc, out = sh(f"/venv/bin/python {SEEDED}/{sid}/demo.py", cwd=REPO)
+            rc, out = sh(f"/venv/bin/python {SEEDED}/{sid}/demo.py", cwd=w.dir)
             res["demo_with_change_rc"] = rc
             res["demo_with_change_tail"] = out.strip()[-300:]
-    finally:
-        undo()
+    if wt is not None:
+        run_in(wt)
+    else:
+        with Worktree(sid) as w:
+            run_in(w)
     rc, out = sh(f"/venv/bin/python {SEEDED}/{sid}/demo.py", cwd=REPO)
     res["demo_clean_rc"] = rc
-    res["confirmed"] = bool(ok and "208 passed" in res.get("suite_with_change", "") and res.get("demo_with_change_rc") == 1 and rc == 0)
+    res["confirmed"] = bool(res.get("applies") and "208 passed" in res.get("suite_with_change", "") and res.get("demo_with_change_rc") == 1 and rc == 0)
     m["confirmation"] = res
-    m["what_i_ran"] = "git -C /repo apply patch.diff; pytest (pinned suite); demo.py with the change; git checkout -- .; demo.py on the clean tree"
+    m["what_i_ran"] = ("scratch worktree of /repo + git apply patch.diff; pinned suite in the worktree; demo.py in the worktree (expect exit 1); "
+                       "demo.py on the unchanged /repo (expect exit 0); worktree removed")
     save_meta(sid, m)
-    print(sid, json.dumps(res)[:600])
+    print(sid, json.dumps(res)[:400], flush=True)
+    return res
 
 
-def cmd_detect(sid, props):
+def cmd_detect(sid, props, wt=None):
     m = load_meta(sid)
     props = props or [m.get("property")]
-    ok, out = apply(sid)
     det = {}
-    try:
+
+    def run_in(w):
         for p in props:
             t0 = time.time()
-            # evidence / replays of runs against a modified tree must not overwrite those of /repo itself
-            outdir = f"/tmp/seedtest-out-{os.getpid()}"
-            rc, out = sh(f"VERIF_OUT={outdir} ./check {p} --tier quick", cwd=HERE)
+            outdir = tempfile.mkdtemp(prefix="seedtest-out-")
+            env = dict(os.environ, PYTTB_REPO=w.dir, VERIF_OUT=outdir, PYVC_WORKERS=os.environ.get("SEED_WORKERS", "6"))
+            rc, out = sh(f"./check {p} --tier quick", cwd=HERE, env=env)
             shutil.rmtree(outdir, ignore_errors=True)
-            lines = [l for l in out.splitlines() if l.startswith(("VIOLATION", "UNDECIDED", "CHECKER-ERROR", "SUMMARY", "KNOWN"))]
-            det[p] = dict(exit=rc, wall=round(time.time() - t0, 1), lines=lines[:12])
-    finally:
-        undo()
+            lines = [l.replace(outdir, "<out>") for l in out.splitlines() if l.startswith(("VIOLATION", "UNDECIDED", "CHECKER-ERROR", "SUMMARY", "KNOWN"))]
+            obl = [l for l in lines if l.startswith("VIOLATION") and ("-obl-" in l or "obligation=" in l)]
+            sti = sorted({l.split("check=")[1].split()[0] for l in lines if l.startswith("VIOLATION") and "check=" in l})
+            det[p] = dict(exit=rc, wall=round(time.time() - t0, 1), failed_obligations=len(obl), standins=sti,
+                          lines=[l for l in lines if not l.startswith("UNDECIDED")][:10] + [l for l in lines if l.startswith("UNDECIDED")][:3])
+    if wt is not None:
+        run_in(wt)
+    else:
+        with Worktree(sid) as w:
+            run_in(w)
     m.setdefault("detection", {}).update(det)
     save_meta(sid, m)
     for p, d in det.items():
-        print(sid, p, "exit", d["exit"], *d["lines"][:4], sep="\n   ")
+        print(sid, p, "exit", d["exit"], "failed obligations", d["failed_obligations"], "stand-ins", d["standins"], flush=True)
+    return det
 
 
-def cmd_all():
+def seeds():
+    return sorted(s for s in os.listdir(SEEDED) if os.path.isdir(os.path.join(SEEDED, s)) and not s.startswith("_"))
+
+
+def one(sid):
+    try:
+        with Worktree(sid) as w:
+            cmd_confirm(sid, w)
+            cmd_detect(sid, [], w)
+    except Exception as e:  # pragma: no cover
+        print(sid, "ERROR", e, flush=True)
+
+
+def cmd_table():
     rows = []
-    for sid in sorted(os.listdir(SEEDED)):
-        if not os.path.isdir(os.path.join(SEEDED, sid)) or sid.startswith("_"):
-            continue
-        cmd_confirm(sid)
-        cmd_detect(sid, [])
+    for sid in seeds():
         m = load_meta(sid)
         p = m.get("property")
-        d = m["detection"].get(p, {})
-        # re-read full output lines for the classification
-        obl = [l for l in d.get("lines", []) if l.startswith("VIOLATION") and "-obl-" in l]
-        sti = [l.split("check=")[1].split()[0] for l in d.get("lines", []) if l.startswith("VIOLATION") and "check=" in l]
-        rows.append((sid, p, m["confirmation"].get("confirmed"), d.get("exit"), len(obl), sorted(set(sti))))
+        d = m.get("detection", {}).get(p, {})
+        if "failed_obligations" not in d:
+            ls = d.get("lines", [])
+            d = dict(d, failed_obligations=len([l for l in ls if l.startswith("VIOLATION") and ("-obl-" in l or "obligation=" in l)]),
+                     standins=sorted({l.split("check=")[1].split()[0] for l in ls if l.startswith("VIOLATION") and "check=" in l}))
+        what = str(m.get("what") or m.get("summary") or m.get("change") or "").replace("|", "/").replace("\n", " ")
+        rows.append((sid, p, m.get("confirmation", {}).get("confirmed"), d.get("exit"), d.get("failed_obligations"), ", ".join(d.get("standins", [])), what[:140]))
     with open(os.path.join(SEEDED, "DETECTION.md"), "w") as f:
-        f.write("# Seeded changes vs. quick checks (regenerated by tools/seedtest.py all)\n\n")
-        f.write("| change | property | confirmed (suite passes, demo fails) | check exit | failed proof obligations (first 8 lines) | stand-in checks that fail |\n|---|---|---|---|---|---|\n")
+        f.write("# Seeded changes vs. quick checks (regenerated by tools/seedtest.py all / table)\n\n"
+                "Each change compiles, passes the pinned 208 doctests and breaks its property under a specific condition "
+                "(confirmed: suite passes with the change, demo.py exits 1 with it and 0 without).  `check exit` 1 = detected.\n\n")
+        f.write("| change | property | confirmed | check exit | failed proof obligations | stand-in checks that fail | what was changed |\n|---|---|---|---|---|---|---|\n")
         for r in rows:
-            f.write(f"| {r[0]} | {r[1]} | {r[2]} | {r[3]} | {r[4]} | {', '.join(r[5])} |\n")
+            f.write("| " + " | ".join(str(x) for x in r) + " |\n")
     print(open(os.path.join(SEEDED, "DETECTION.md")).read())
 
 
@@ -131,7 +169,14 @@ if __name__ == "__main__":
         cmd_import(sys.argv[2], sys.argv[3])
     elif c == "confirm":
         cmd_confirm(sys.argv[2])
-    elif c == "all":
-        cmd_all()
     elif c == "detect":
         cmd_detect(sys.argv[2], sys.argv[3:])
+    elif c == "table":
+        cmd_table()
+    elif c == "all":
+        jobs = int(sys.argv[sys.argv.index("--jobs") + 1]) if "--jobs" in sys.argv else 3
+        only = [a for a in sys.argv[2:] if a.startswith("C")]
+        todo = only or seeds()
+        with ThreadPoolExecutor(max_workers=jobs) as ex:
+            list(ex.map(one, todo))
+        cmd_table()
